@@ -270,6 +270,41 @@ let () =
              | Panic n -> Printf.printf "%s %d PARSE panic %d\n" !case_id !idx (int_of_n n)
              | Fuel -> Printf.printf "%s %d PARSE fuel\n" !case_id !idx);
             incr idx
+        | "api" :: toks ->
+            let pi x = pos_of_int (int_of_string x) in
+            let parse_op t =
+              match String.split_on_char ':' t with
+              | ["nil"; d] -> ONil (pi d) | ["true"; d] -> OTrue (pi d)
+              | ["int"; z; d] -> OInt (z_of_i64 (Int64.of_string z), pi d)
+              | ["flt"; b; d] -> OFlt (z_of_bits (Int64.of_string ("0x" ^ b)), pi d)
+              | ["str"; h; d] -> OStr (utf8_decode (hex_decode h), pi d)
+              | ["sym"; h; d] -> OSym (utf8_decode (hex_decode h), pi d)
+              | ["cons"; a; b; d] -> OCons (pi a, pi b, pi d)
+              | ["copy"; a; d] -> OCopy (pi a, pi d)
+              | ["car"; a; d] -> OCar (pi a, pi d) | ["cdr"; a; d] -> OCdr (pi a, pi d)
+              | ["push"; a; b] -> OPush (pi a, pi b) | ["append"; a; b] -> OAppend (pi a, pi b)
+              | ["deep"; a; d] -> ODeep (pi a, pi d)
+              | ["show"; a] -> OShow (pi a) | ["eq"; a; b] -> OEq (pi a, pi b) | ["equal"; a; b] -> OEqual (pi a, pi b)
+              | ["set"; s; a] -> OSet (pi s, pi a) | ["setscope"; s; a] -> OSetScope (pi s, pi a)
+              | ["unset"; s] -> OUnset (pi s) | ["get"; s; d] -> OGet (pi s, pi d) | ["boundp"; s] -> OBoundp (pi s)
+              | ["toint"; a] -> OToInt (pi a) | ["toflt"; a] -> OToFlt (pi a) | ["tostr"; a] -> OToStr (pi a)
+              | ["tobool"; a] -> OToBool (pi a) | ["iter"; a] -> OIter (pi a)
+              | ["list3"; a; b; c; d] -> OList3 (pi a, pi b, pi c, pi d)
+              | _ -> failwith ("bad op " ^ t) in
+            let ops = List.map parse_op (List.filter (fun x -> x <> "") toks) in
+            let outs = run_ops init_world ops in
+            let show_out (o, r) = match r with
+              | RUnit -> "u" | RErr -> "e" | RBool b -> if b then "b1" else "b0"
+              | RVal v -> "v" ^ show_text (print fops v)
+              | RInt z -> (match o with
+                           | OToFlt _ -> Printf.sprintf "f%Lx" (bits_of_z (fops.f_of_int z))
+                           | _ -> "i" ^ z_to_string z)
+              | RFlt b -> Printf.sprintf "f%Lx" (bits_of_z b)
+              | RStr s -> "s" ^ show_text s
+              | RVals l -> "l" ^ show_text (List.concat (List.map (fun v -> print fops v @ [n_of_int 32]) l))
+              | RUnmodelled -> "x" in
+            Printf.printf "%s %d API %s\n" !case_id !idx (String.concat "|" (List.map show_out (List.combine ops outs)));
+            incr idx
         | ["sweep"; alpha; len; first] ->
             (* all strings of the given length over the alphabet, optionally with a fixed first character *)
             let al = Array.of_list (utf8_decode (hex_decode alpha)) in
